@@ -92,9 +92,14 @@ func (s *Slots) Opt(o interface{}) string {
 }
 func (s *Slots) Flip(b bool) bool               { return !b }
 func (s *Slots) Swap(b bool, str string) string { return str + "/" + strconv.FormatBool(b) }
-func (s *Slots) Peer() interface{}              { return s.Obj }
-func (s *Slots) Peers() []interface{}           { return s.Objs }
-func (s *Slots) Count() (int, error)            { return len(s.Objs), nil }
+
+// Trio takes its three arguments in an order that is a rotation of the declared one (s, b, t).
+func (s *Slots) Trio(t string, str string, b bool) string {
+	return str + "/" + t + "/" + strconv.FormatBool(b)
+}
+func (s *Slots) Peer() interface{}    { return s.Obj }
+func (s *Slots) Peers() []interface{} { return s.Objs }
+func (s *Slots) Count() (int, error)  { return len(s.Objs), nil }
 
 // Risky fails depending on its argument: "fail..." gives no value and an error, "both..." a value
 // together with an error. It is what lets a reflection backed object fail like a Resolver can.
@@ -171,7 +176,7 @@ func slotFor(c *Case, typeName, field string) string {
 }
 
 // computedSlots are backed by methods; the rest by struct fields.
-var computedSlots = map[string]bool{"echo": true, "pick": true, "greet": true, "flip": true, "swap": true, "peer": true, "peers": true, "count": true, "risky": true, "htmlid": true, "tint": true, "tag": true, "opt": true}
+var computedSlots = map[string]bool{"echo": true, "pick": true, "greet": true, "flip": true, "swap": true, "peer": true, "peers": true, "count": true, "risky": true, "htmlid": true, "tint": true, "tag": true, "opt": true, "trio": true}
 
 // universeSlotOf is set per world so that UniverseCompute can translate renamed fields.
 var universeSlotOf func(typeName, field string) string
@@ -209,6 +214,8 @@ func UniverseCompute(n *hx.Node, fd *hx.Field, args map[string]interface{}) (hx.
 		return hx.Bool(!b), true
 	case "swap":
 		return hx.Str(str + "/" + strconv.FormatBool(b)), true
+	case "trio":
+		return hx.Str(str + "/" + fmt.Sprint(args["t"]) + "/" + strconv.FormatBool(b)), true
 	case "peer":
 		return n.F["__obj"], true
 	case "peers":
